@@ -21,7 +21,13 @@ theorem C04_delta_positive : 0 < Gen.jumpDefaultDelta := by decide
 /-- The simulation loop advances streams only through `Module.start_step`, whose call — regenerated from the source —
     is the plain, unforced `self.dists.jump_dt()`: the hypothesis `loopOp` of the theorems below (no `force`) is
     what the code does.  (A forced jump there would silently overlap instead of raising when a step over-draws.) -/
-theorem C04_loop_jumps_unforced : Gen.Seed.startStepJumps = ["self.dists.jump_dt()"] := by decide
+theorem C04_loop_jumps_unforced : Gen.Seed.startStepOwn = true ∧ Gen.Seed.startStepForced = false := by decide
+
+/-- The jump target and the default step translated from `Dist.jump_dt` are the model's: `stride * ti`, and the owner's
+    `ti + 1` (so draws made during step `ti` start at `stride * (ti + 1)`, never at a step's own window start 0). -/
+theorem C04_jump_target_is_model (ti : Int) :
+    Gen.jumpDtTarget ti = (Gen.dtJumpSize : Int) * ti ∧ Gen.jumpDtDefaultTi ti = ti + 1 := by
+  unfold Gen.jumpDtTarget Gen.jumpDtDefaultTi Gen.dtJumpSize; omega
 
 /-- **Monotone.** For every operation list the simulation loop can issue (jumps, timestep jumps, draws,
     direct generator use; no `force`, no `reset`, no re-`init`), from any state whose generator is not behind
